@@ -1,7 +1,8 @@
 package decimal
 
 // Bounded stand-in for C39 (labelled bounded, never counted as proved): Decimal.Parse followed
-// by Float64 is compared with strconv.ParseFloat (the statement's own oracle) over an exhaustive
+// by Float64 is compared with strconv.ParseFloat (the statement's own oracle) and with exact
+// rational rounding over an exhaustive
 // grid of short mantissas x exponents plus families of hard cases; the exact flag is checked
 // against exact rational arithmetic. A single Decimal is also re-used across parses.
 
@@ -28,6 +29,7 @@ func TestVerifC39Bounded(t *testing.T) {
 	vals := map[uint64]bool{} // distinct finite non-zero binary64 values among the expected answers
 	fails := map[string]int{}
 	var samples []string
+	stdlibDeviates := 0
 	fail := func(kind, format string, a ...any) {
 		fails[kind]++
 		if fails[kind] <= 3 {
@@ -42,6 +44,18 @@ func TestVerifC39Bounded(t *testing.T) {
 		want, err := strconv.ParseFloat(s, 64)
 		if err != nil && !math.IsInf(want, 0) {
 			return
+		}
+		// The statement's oracle is the standard library, meant as "the nearest binary64, ties
+		// to even". strconv.ParseFloat (Go 1.23..1.26) is itself wrong for integer numerals of
+		// more than 800 digits that miss its fast paths (it loses count of the digits it drops:
+		// "99..9" with 881 digits "e-880" comes back as 1e-80), so decimal numerals are also
+		// rounded with exact rational arithmetic, and where the two oracles disagree the exact
+		// one decides (counted, reported in the summary).
+		if r, ok := c39exactValue(s); ok && !strings.ContainsAny(s, "xXpP") {
+			if ex, _ := r.Float64(); math.Float64bits(ex) != math.Float64bits(want) {
+				stdlibDeviates++
+				want = ex
+			}
 		}
 		if want != 0 && !math.IsInf(want, 0) {
 			vals[math.Float64bits(want)] = true
@@ -90,6 +104,22 @@ func TestVerifC39Bounded(t *testing.T) {
 		check(new(Decimal), "1."+strings.Repeat("2345", n/4)+"e3", false)
 		check(new(Decimal), "9"+strings.Repeat("9", n)+"e-"+strconv.Itoa(n), false)
 	}
+	// 3a. long mantissas that sit on or next to a rounding boundary (strconv's fast paths give
+	// up on them; beyond 800 digits its slow path must be handed a decimal point - F16)
+	for _, n := range []int{0, 1, 300, 700, 783, 784, 785, 800, 900, 1300} {
+		for _, head := range []string{"9007199254740993", "9007199254740995", "4503599627370497.5", "1.00000000000000011102230246251565404236316680908203125"} {
+			for _, tail := range []string{"", "1", "9"} {
+				z := strings.Repeat("0", n)
+				body := head + z + tail
+				if !strings.Contains(head, ".") {
+					check(new(Decimal), head+"."+z+tail, false)
+					check(new(Decimal), body+"e-"+strconv.Itoa(n+len(tail)), false)
+				}
+				check(new(Decimal), body, false)
+				check(new(Decimal), body+"e-310", false)
+			}
+		}
+	}
 	// 3b. mantissas around and above 2^53 (16..21 digits) with the small exponents of the
 	// exact-power-of-ten window, written with and without a decimal point
 	rnd := rand.New(rand.NewSource(39))
@@ -125,10 +155,10 @@ func TestVerifC39Bounded(t *testing.T) {
 	for _, s := range []string{"0x1p4", "1.5", "0x1.8p1", "2.5e3", "1p3", "0.1", "1e22", "0x10", "123.456e-7"} {
 		check(z, s, false)
 	}
-	rule := "decimal numerals m e k for all mantissas m up to the bound and exponents in [-345,320] (quick: every exponent for m<100, every 7th above), plus seeded random mantissas of 16..21 digits (around and above 2^53) with exponents -25..25, with and without a decimal point, named hard cases (halfway, subnormal, overflow, long mantissas up to 1300 digits) and a re-used Decimal; compared bit-for-bit with strconv.ParseFloat; exact flag checked with big.Rat"
+	rule := "decimal numerals m e k for all mantissas m up to the bound and exponents in [-345,320] (quick: every exponent for m<100, every 7th above), plus seeded random mantissas of 16..21 digits (around and above 2^53) with exponents -25..25, with and without a decimal point, named hard cases (halfway, subnormal, overflow, long mantissas up to 1300 digits) and a re-used Decimal; compared bit-for-bit with strconv.ParseFloat and with exact rational rounding (big.Rat.Float64; it decides where strconv itself is wrong: long integer numerals beyond 800 digits); exact flag checked with big.Rat"
 	ss := make([]string, 0, 3)
 	for _, s := range samples {
 		ss = append(ss, fmt.Sprintf("%q", s))
 	}
-	fmt.Printf("BOUNDED: {\"evaluations\":%d,\"distinct\":%d,\"rule\":%q,\"exhaustive\":true,\"bound\":\"mantissa <= %d, exponent -345..320\",\"samples\":[%s]}\n", evals, len(vals), rule+"; distinct_nontrivial counts the distinct finite non-zero binary64 values among the expected results (numerals such as 10e1 and 1e2 count once; zero and overflow count as trivial)", maxM, strings.Join(ss, ","))
+	fmt.Printf("BOUNDED: {\"evaluations\":%d,\"distinct\":%d,\"rule\":%q,\"exhaustive\":true,\"bound\":\"mantissa <= %d, exponent -345..320\",\"samples\":[%s]}\n", evals, len(vals), rule+fmt.Sprintf("; strconv deviated from exact rounding on %d numerals", stdlibDeviates)+"; distinct_nontrivial counts the distinct finite non-zero binary64 values among the expected results (numerals such as 10e1 and 1e2 count once; zero and overflow count as trivial)", maxM, strings.Join(ss, ","))
 }
